@@ -75,20 +75,18 @@ func genChanScript(seed int64, maxSteps, errPm, reusePm int) chanScript {
 			}
 			// the read after the failures: often pending for a while, so that the consumer calls
 			// fall between the failed read and the next successful one
-			st := genDataStep(&r, id)
-			id++
+			sts := genDataSteps(&r, &id)
 			if r.pm() < 700 {
-				st.hold = 1 + int(r.next()%5)
+				sts[0].hold = 1 + int(r.next()%5)
 			}
-			sc.steps = append(sc.steps, st)
+			sc.steps = append(sc.steps, sts...)
 			continue
 		}
-		st := genDataStep(&r, id)
-		id++
+		sts := genDataSteps(&r, &id)
 		if r.pm() < 80 {
-			st.hold = 1 + int(r.next()%2)
+			sts[0].hold = 1 + int(r.next()%2)
 		}
-		sc.steps = append(sc.steps, st)
+		sc.steps = append(sc.steps, sts...)
 	}
 	sc.barrier = make([]int, len(sc.steps)+1)
 	sc.barrier[len(sc.steps)] = len(sc.steps)
@@ -111,6 +109,68 @@ func genChanScript(seed int64, maxSteps, errPm, reusePm int) chanScript {
 		}
 	}
 	return sc
+}
+
+var multiByte = []string{"é", "ü", "→", "€", "日本", "😀", "\u00a0", "ß"}
+
+// genDataSteps draws one data read - or two, when a multi-byte UTF-8 character is split by the read
+// boundary. Styles with bytes >= 0x80 hold no escape sequence; what must come out of the channel is
+// exactly what went in minus the carriage returns.
+func genDataSteps(r *xrng, id *int) []chanStep {
+	wrap := func(payload []byte, style string) chanStep {
+		raw := append([]byte(fmt.Sprintf("<%d:", *id)), payload...)
+		raw = append(raw, '>')
+		*id++
+		return chanStep{raw: raw, clean: bytes.ReplaceAll(raw, []byte("\r"), nil), style: style}
+	}
+	x := r.pm()
+	switch {
+	case x < 70:
+		// arbitrary bytes: invalid UTF-8, Latin-1, binary (no ESC)
+		n := 1 + int(r.next()%40)
+		pl := make([]byte, n)
+		for i := range pl {
+			pl[i] = byte(r.next())
+			if pl[i] == 0x1b {
+				pl[i] = 0xb0
+			}
+		}
+		return []chanStep{wrap(pl, "binary")}
+	case x < 100:
+		// every byte value except ESC, rotated
+		pl := make([]byte, 0, 255)
+		off := int(r.next() % 256)
+		for i := 0; i < 256; i++ {
+			if c := byte(i + off); c != 0x1b {
+				pl = append(pl, c)
+			}
+		}
+		return []chanStep{wrap(pl, "all-bytes")}
+	case x < 140:
+		// whole multi-byte characters inside one read
+		var pl []byte
+		for k := 1 + int(r.next()%4); k > 0; k-- {
+			pl = append(pl, "ab "[r.next()%3])
+			pl = append(pl, multiByte[r.next()%uint64(len(multiByte))]...)
+			if r.pm() < 300 {
+				pl = append(pl, '\r', '\n')
+			}
+		}
+		return []chanStep{wrap(pl, "utf8")}
+	case x < 175:
+		// a multi-byte character split by the read boundary
+		ch := []byte(multiByte[r.next()%uint64(len(multiByte))])
+		k := 1 + int(r.next()%uint64(len(ch)-1))
+		a := wrap(append([]byte("caf"), ch[:k]...), "utf8-split")
+		a.raw, a.clean = a.raw[:len(a.raw)-1], a.clean[:len(a.clean)-1] // the read ends inside the character
+		b := chanStep{raw: append(append([]byte(nil), ch[k:]...), " uplink>"...), style: "utf8-split"}
+		b.clean = b.raw
+		*id++
+		return []chanStep{a, b}
+	}
+	st := genDataStep(r, *id)
+	*id++
+	return []chanStep{st}
 }
 
 func genDataStep(r *xrng, id int) chanStep {
@@ -496,7 +556,12 @@ func runChan(d Desc) mon.Result {
 	var why string
 	for i := 0; i < d.Histories; i++ {
 		sseed := int64(mix64(uint64(d.Seed)^uint64(i)*0x9e3779b97f4a7c15) >> 1)
-		o := runChanSession(sseed, d)
+		var o chanOutcome
+		if int(mix64(uint64(sseed)^0xa17)%1000) < d.AuthPm {
+			o = runAuthSession(sseed, d)
+		} else {
+			o = runChanSession(sseed, d)
+		}
 		for k, v := range o.obs {
 			obs[k] += v
 		}
